@@ -126,15 +126,24 @@ class FaultFS:
         return getattr(self.inner, n)
 
 
+def native_fs():
+    """the library's own native file system object; PyFilesystem's OSFS on '/' if that private class has moved"""
+    try:
+        from simfile._private.nativeosfs import NativeOSFS
+        return NativeOSFS()
+    except Exception:
+        from fs.osfs import OSFS
+        return OSFS("/")
+
+
 class Scenario:
     """a directory with one input file, on the native file system or in memory"""
 
     def __init__(self, kind, name, data):
         self.kind = kind
         if kind == "native":
-            from simfile._private.nativeosfs import NativeOSFS
             self.root = tempfile.mkdtemp(prefix="verif_fs_")
-            self.inner = NativeOSFS()
+            self.inner = native_fs()
             self.sep = os.sep
         else:
             from fs.memoryfs import MemoryFS
@@ -223,9 +232,8 @@ class Tree:
     def __init__(self, kind, tree, rootname="pack"):
         self.kind = kind
         if kind == "native":
-            from simfile._private.nativeosfs import NativeOSFS
             self.base = tempfile.mkdtemp(prefix="verif_tree_")
-            self.fs = NativeOSFS()
+            self.fs = native_fs()
             self.sep = os.sep
         else:
             from fs.memoryfs import MemoryFS
